@@ -10,6 +10,8 @@ import Hgxv.Model.C20Cent
   `rline s <len> <incident keys per node of the loaded hypergraph>` -> `rej` | `<vertices> <edges i,j;..>`   line_graph on the READINGS
   `rse <cent> s <len> <incident keys per node>`                     -> `rej` | `key=value,..`   s_betweenness / s_closeness on the readings
   `sn <stub|btw|clo>`               -> `rej` | `n<label>=value,..`
+  `sp <s>` / `sp n`                 -> per source vertex (`;`) per vertex (`,`) `<distance>.<number of shortest paths>` or `x`: `distSigma (levels g src) v`
+                                       on the s-line graph / the bipartite projection (vertex order of the graph)
   `tload <times> <edges>`           -> `ok`            temporal hypergraph (`get_edges()` order)
   `snaps`                           -> `<times> <nodes per snapshot> <edges per snapshot>`
   `tse <cent> s` / `tsn <cent>`     -> averaged versions
@@ -37,6 +39,13 @@ def showObj : Obj Nat → String
 def showItems {κ} (f : κ → String) : Option (List (κ × Rat)) → String
   | none => "rej"
   | some l => showList "," "-" (fun (p : κ × Rat) => f p.1 ++ "=" ++ showRat p.2) l
+
+def showSP {V : Type} [DecidableEq V] (g : Graph V) : String :=
+  showList ";" "-" (fun src =>
+    let lv := levels g src
+    showList "," "-" (fun v => match distSigma lv v with
+      | some (d, c) => toString d ++ "." ++ toString c
+      | none => "x") g.verts) g.verts
 
 def step (s : St) : List String → St × String
   | ["load", nodes, edges] =>
@@ -70,6 +79,8 @@ def step (s : St) : List String → St × String
     | some cent, some len, some incs =>
       (s, showItems showKey (sEdgesR cent sortNats { edges := s.H.edges, len := len, inc := s.H.nodes.zip incs } k.toNat!))
     | _, _, _ => (s, "bad-op")
+  | ["sp", "n"] => (s, showSP (bipGraph sortNats s.H))
+  | ["sp", k] => (s, showSP (lineGraph sortNats s.H k.toNat!))
   | ["se", c, k] =>
     match centN c with
     | some cent => (s, showItems showKey (sEdges cent sortNats s.H k.toNat!))
